@@ -110,6 +110,12 @@ def r1_r2(ck, F):
             for i, j, s in cl.stmts():
                 if s["k"] == "assign" and s["lhs"].get("p") == ["*"] and s["lhs"]["l"] == 2:
                     assigns = True
+            # the same store spelled core::mem::replace(v, new) / core::mem::swap(v, &mut new)
+            for bb, t in cl.calls():
+                if t["callee"].get("path") in ("core::mem::replace", "core::mem::swap", "core::mem::take") and t["argv"]:
+                    o = cl.origin(t["argv"][0])
+                    if o[0] == "arg" and o[1] == 2:
+                        assigns = True
         if ok and assigns:
             ck.ok("C12.R1", "reload == modify(|v| *v = new)", fn=rl.path)
         else:
